@@ -52,6 +52,8 @@ def make_receiver(spec):
             for j in range(nt):
                 q[:, j, :] = base * (max(np.cos(2 * np.pi * j / nt), 0.0) if spec["ndim"] > 1 else 1.0)
             q *= np.array(spec.get("qt", [1.0] * len(times)))[:, None, None]
+            if spec.get("qz"):
+                q *= (0.2 + 1.6 * (np.arange(nz) + 0.5) / nz)[None, None, :]
             if [p, k] not in spec.get("shaded", []):   # a shaded tube has no outer condition at all (insulated wall)
                 tube.set_bc(receiver.HeatFluxBC(R, H, nt, nz, times, q), "outer")
             pan.add_tube(tube)
@@ -441,6 +443,12 @@ def run(ctx):
          "panel_geom": [[10.0, 1.0], [6.0, 1.0]], "H": 8000.0, "nr": 9},
         {"name": "1D shaded tube listed before a lit twin, steady", "ndim": 1, "times": [0.0, 1.0], "panels": [[1, 1], [2]],
          "paths": [[0, 1]], "shaded": [[0, 0]], "identical": True, "H": 8000.0},
+    ]
+    # a 3-D tube whose flux RISES along the axis (0.2 .. 1.8 of the base value): the fluid at an axial station must see
+    # the wall of the same station (every tier: the other 3-D case is thorough-only and axially uniform)
+    specs += [
+        {"name": "3D one tube, flux rising along the axis, steady", "ndim": 3, "times": [0.0, 1.0], "panels": [[2]], "paths": [[0]],
+         "nr": 6, "nt": 4, "nz": 5, "qz": True, "H": 8000.0},
     ]
     if not ctx.quick():
         specs += [
